@@ -161,6 +161,47 @@ def _locals_of(fn: ast.FunctionDef) -> Set[str]:
     return out
 
 
+def _split_tuple_result(body, ret: ast.Name):
+    """A folded multi-exit helper leaves `__ret = (a, b)` in every arm and returns `__ret`.  When every definition of the result
+    variable is a tuple display of one arity, the components get their own variables: `__ret_0 = a; __ret_1 = b`, result
+    `(__ret_0, __ret_1)` - so that `x, y = <result>` binds x to the a's and y to the b's instead of to "some element"."""
+    name = ret.id
+    defs = [n for st in body for n in ast.walk(st) if isinstance(n, ast.Assign) and len(n.targets) == 1
+            and isinstance(n.targets[0], ast.Name) and n.targets[0].id == name]
+    other_stores = [n for st in body for n in ast.walk(st) if isinstance(n, ast.Name) and n.id == name and isinstance(n.ctx, ast.Store)]
+    loads = [n for st in body for n in ast.walk(st) if isinstance(n, ast.Name) and n.id == name and isinstance(n.ctx, ast.Load)]
+    if not defs or len(other_stores) != len(defs) or loads:
+        return body, ret
+    if not all(isinstance(d.value, ast.Tuple) and not any(isinstance(x, ast.Starred) for x in d.value.elts) for d in defs):
+        return body, ret
+    arity = {len(d.value.elts) for d in defs}
+    if len(arity) != 1 or next(iter(arity)) < 2:
+        return body, ret
+    n = next(iter(arity))
+
+    class Split(ast.NodeTransformer):
+        def visit_Assign(self, node):
+            if node in defs:
+                out = []
+                for i, e in enumerate(node.value.elts):
+                    a = ast.Assign(targets=[ast.Name(id=f'{name}_{i}', ctx=ast.Store())], value=e, type_comment=None)
+                    out.append(ast.copy_location(a, node))
+                return out
+            return node
+
+    def run(stmts):
+        out = []
+        for st in stmts:
+            r = Split().visit(st)
+            out += r if isinstance(r, list) else [r]
+        return out
+    body = run(body)
+    for st in body:
+        ast.fix_missing_locations(st)
+    new_ret = ast.Tuple(elts=[ast.Name(id=f'{name}_{i}', ctx=ast.Load()) for i in range(n)], ctx=ast.Load())
+    return body, ast.copy_location(new_ret, ret)
+
+
 def _is_callable_literal(e) -> bool:
     if isinstance(e, ast.Lambda):
         a = e.args
@@ -366,6 +407,8 @@ def _expand(call: ast.Call, helper: ast.FunctionDef, tag: str, at: ast.stmt):
                                                     for b in body + ([ret_expr] if ret_expr is not None else []) for n in ast.walk(b)))]
     if ret_expr is None:
         ret_expr = ast.Constant(value=None)
+    elif isinstance(ret_expr, ast.Name):
+        body, ret_expr = _split_tuple_result(body, ret_expr)
     out = pre + body
     for s in out:
         for n in ast.walk(s):
